@@ -140,6 +140,44 @@ SK["escaped"] = ('''LAYER
   END
 END''', [Hole("H01", "esc", 1), Hole("H02", "esc", 0), Hole("H03"), Hole("H04", "esc", 1, multi=True), Hole("H05", "esc", 0)])
 
+SK["shared"] = ('''MAP
+  LAYER
+    NAME "l1"
+    TYPE POINT
+    GROUP "H01"
+    CLUSTER
+      GROUP ( [A02] = "H03" )
+    END
+    FEATURE
+      POINTS 1 1 END
+      TEXT "H04"
+    END
+    CLASS
+      TEXT ( "[A05]" )
+      LABEL
+        POSITION [A06]
+        FONT "H07"
+      END
+    END
+  END
+  LAYER
+    NAME "l2"
+    TYPE POINT
+    CLUSTER
+      GROUP ( [A08] = 1 )
+    END
+    GROUP "H09"
+  END
+  LEGEND
+    POSITION LL
+  END
+  SYMBOL
+    NAME "s"
+    TYPE TRUETYPE
+    FONT "H10"
+  END
+END''', [Hole("H01"), Hole("A02", "name"), Hole("H03"), Hole("H04"), Hole("A06", "name"), Hole("H07", "xstr"), Hole("A08", "name"), Hole("H09"), Hole("H10")])
+
 INFO = {
     "explanation": "C01: template-symbolic pipeline. The real scanner runs concretely on each skeleton; hole tokens (string contents, attribute names) get "
                    "symbolic values of the same lexical class; the real Parser.parse loop, LALR tables, MapfileTransformer, CaseInsensitiveOrderedDict, "
@@ -150,7 +188,7 @@ INFO = {
     "functions": ["mappyfile.parser.Parser.parse", "lark LALR driver on mappyfile's table", "mappyfile.transformer.MapfileTransformer.*", "mappyfile.transformer.MapfileToDict.transform",
                   "mappyfile.pprint.PrettyPrinter._format", "mappyfile.quoter.Quoter.*", "mappyfile.utils.loads", "mappyfile.utils.dumps"],
     "bounds": {"string_holes": "quick 2 / thorough 4 code points, 32..0x2FFF without quotes and backslash, not starting with '#'",
-               "names": "2 characters [a-z][a-z0-9_]", "skeletons": "4 structural (one with backslash-escaped quotes inside and at the end of strings) + 19 schema-generated (one per object type, every simple keyword slot)"},
+               "names": "2 characters [a-z][a-z0-9_]", "skeletons": "5 structural (one sharing GROUP / TEXT / FONT / POSITION between object types with different lexical rules, one with backslash-escaped quotes inside and at the end of strings) + 19 schema-generated (one per object type, every simple keyword slot)"},
     "outside": ["strings containing a quote character; strings of multi-alternative keywords that look like expressions (documented exclusions)",
                 "strings ending in a backslash (known finding KF-C01-TRAILING-BACKSLASH) and hex-colour-shaped strings (a different token class)",
                 "texts larger than the skeletons (blocks interact only through composite's key handling, covered by C02)", "INCLUDE (C15)"],
